@@ -13,12 +13,7 @@ GEN = ("bounded-exhaustive exploration of an explicit TLA+ specification whose e
 NOTE = ("trusted base: TLC/SANY, the hand-written L0 denotations, relation R and the object builders in harness/geom.py, the "
         "hash-boundary admission filter; universes are bounded (constants and counts are in the evidence file)")
 
-CLAIMED = {
-    # id: (technique, text override or None, design_ref)
-    "C01": ("TLA+ spec (analytic = vertex enumeration) + TLC case generation + spec-to-code replay", None, "DESIGN.md 8 C01"),
-    "C10": ("TLA+ spec (exact squared distances) + TLC case generation + spec-to-code replay", None, "DESIGN.md 8 C10"),
-    "C11": ("TLA+ spec (rational cos^2, classes) + TLC case generation + spec-to-code replay", None, "DESIGN.md 8 C11"),
-}
+CLAIMED = {}
 PENDING = "check not built yet in this round (planned, see DESIGN.md section 8)"
 NOT_APPLICABLE = {}
 
